@@ -187,6 +187,111 @@ func restoreVsApply(root string) (bool, string) {
 	return true, fmt.Sprintf("node 2 state machine %v restores=%d", f2.Ops, f2.Restores)
 }
 
+// localSnapshotVsInstall: a follower has received the first chunk of a two-chunk snapshot (file created) when it
+// starts a local snapshot of its own, older state (file created later, Snapshot call slow); the final chunk arrives
+// and the received snapshot is complete before the local one.  The node must end up with the received state.
+func localSnapshotVsInstall(root string) (bool, string) {
+	ids := []string{"0", "1", "2"}
+	c := sim.NewCluster(root, ids, 4, 2)
+	for _, id := range ids {
+		must(c.Open(id))
+		must(c.Bootstrap(id, ids))
+		must(c.Start(id))
+	}
+	c.Nodes["0"].FSM.Pad = 32768
+	elect(c, "0")
+	submit(c, "0", 1)
+	pump(c)
+	raft.VerifHeartbeat(c.Nodes["0"].R)
+	quiet()
+	pump(c)
+	// node 2 misses operations 2 and 3
+	except2 := func() {
+		for round := 0; round < 6; round++ {
+			for _, cl := range c.LiveCalls() {
+				if cl.Dst == "2" {
+					c.Reply(cl, true)
+				} else if !cl.Delivered {
+					c.Deliver(cl, false)
+				} else {
+					c.Reply(cl, false)
+				}
+				quiet()
+			}
+		}
+	}
+	submit(c, "0", 2)
+	except2()
+	submit(c, "0", 3)
+	except2()
+	n0, n2 := c.Nodes["0"], c.Nodes["2"]
+	n0.FSM.Need = true
+	raft.VerifSnapshotTick(n0.R)
+	quiet()
+	n0.FSM.Need = false
+	// first chunk of the leader's snapshot reaches node 2
+	step := func() bool {
+		raft.VerifHeartbeat(n0.R)
+		quiet()
+		moved := false
+		for _, cl := range c.LiveCalls() {
+			if cl.Dst == "2" && cl.Kind == "IS" && !cl.Delivered {
+				c.Deliver(cl, false)
+				quiet()
+				if !cl.Waiting {
+					c.Reply(cl, false)
+					quiet()
+				}
+				moved = true
+				break
+			}
+		}
+		for _, cl := range c.LiveCalls() {
+			if cl.Dst == "2" && cl.Kind != "IS" {
+				c.Reply(cl, true)
+				quiet()
+			}
+		}
+		return moved
+	}
+	if !step() {
+		return false, "setup: the leader sent no snapshot chunk to node 2"
+	}
+	d := raft.VerifDump(n2.R)
+	if !d.PartialOpen {
+		return false, "setup: node 2 holds no partially received snapshot after the first chunk"
+	}
+	// node 2 starts a local snapshot of its own (older) state; its Snapshot call is slow
+	n2.FSM.Close("Snapshot")
+	n2.FSM.Need = true
+	raft.VerifSnapshotTick(n2.R)
+	quiet()
+	n2.FSM.Need = false
+	// the final chunk arrives while the local snapshot is still being written
+	step()
+	n2.FSM.Open("Snapshot")
+	quiet()
+	for i := 0; i < 3; i++ {
+		raft.VerifHeartbeat(n0.R)
+		quiet()
+		pump(c)
+	}
+	submit(c, "0", 4)
+	for i := 0; i < 3; i++ {
+		pump(c)
+		raft.VerifHeartbeat(n0.R)
+		quiet()
+	}
+	pump(c)
+	want, got := fmt.Sprint(n0.FSM.Ops), fmt.Sprint(n2.FSM.Ops)
+	d = raft.VerifDump(n2.R)
+	if got != want {
+		return false, fmt.Sprintf("node 2's state machine holds %s, the leader's %s (node 2: lastApplied %d, snapshot boundary %d, restores %d): it restored its own older snapshot under the label of the received one",
+			got, want, d.LastApplied, d.LastIncludedIndex, n2.FSM.Restores)
+	}
+	return true, fmt.Sprintf("node 2 state machine %s restores=%d", got, n2.FSM.Restores)
+}
+
 func main() {
 	root, err := os.MkdirTemp(os.Getenv("VERIF_SCRATCH"), "fsmrace")
 	must(err)
@@ -195,7 +300,8 @@ func main() {
 	for _, sc := range []struct {
 		name string
 		f    func(string) (bool, string)
-	}{{"snapshot-vs-apply", snapshotVsApply}, {"restore-vs-apply", restoreVsApply}} {
+	}{{"snapshot-vs-apply", snapshotVsApply}, {"restore-vs-apply", restoreVsApply},
+		{"local-snapshot-vs-install", localSnapshotVsInstall}} {
 		ok, what := sc.f(root + "/" + sc.name)
 		if ok {
 			fmt.Printf("FSMRACE %s ok: %s\n", sc.name, what)
@@ -204,7 +310,7 @@ func main() {
 			fmt.Printf("IMPL-VIOLATION C10 [%s] %s\n", sc.name, what)
 		}
 	}
-	fmt.Printf("FSMRACE scenarios=2 violations=%d\n", bad)
+	fmt.Printf("FSMRACE scenarios=3 violations=%d\n", bad)
 	if bad > 0 {
 		os.Exit(1)
 	}
